@@ -641,3 +641,120 @@ Proof.
   split; [vm_compute; reflexivity|]. split; [vm_compute; reflexivity|].
   intros P. apply Permutation_length in P. vm_compute in P. discriminate.
 Qed.
+
+(* ---------------------------------------------------------------------------------------- *)
+(* nothing else is ever handed over: any history, any rows, any answers *)
+
+Lemma ext_trans a b c : ext a b -> ext b c -> ext a c.
+Proof. intros [E1 C1] [E2 C2]. split; intros; auto. Qed.
+
+Lemma run_ext loopf h ops : forall d, ext d (fst (run_gen loopf h d ops)).
+Proof.
+  induction ops as [|o r IH]; intros d; [apply ext_refl|].
+  rewrite run_gen_cons. simpl. eapply ext_trans; [apply db_after_ext|apply IH].
+Qed.
+
+Lemma stamp_in_ext h d d' o pk :
+  ext d d' -> In pk (stamp h (eons d) (cfgs d) o) -> In pk (stamp h (eons d') (cfgs d') o).
+Proof.
+  intros [He Hc]. unfold stamp.
+  destruct (find_eon (eons d) (or_eon o)) as [er|] eqn:E1; [|contradiction].
+  destruct (find_cfg (cfgs d) (er_kci er)) as [cr|] eqn:E2; [|contradiction].
+  rewrite (He _ _ E1), (Hc _ _ E2). auto.
+Qed.
+
+Lemma handle_row_calls h j answers c a :
+  In (c, a) (fst (fst (handle_row h j answers))) -> prepare h j = inl (call_pk c).
+Proof.
+  unfold handle_row. destruct (prepare h j) as [pk|e]; [|simpl; contradiction].
+  destruct (h_bcast h); destruct (h_cb h).
+  - destruct (next_answer answers) as [a1 ans1]. destruct a1.
+    + destruct (next_answer ans1) as [a2 ans2]. simpl.
+      intros [H|[H|[]]]; inversion H; reflexivity.
+    + simpl. intros [H|[]]; inversion H; reflexivity.
+  - destruct (next_answer answers) as [a1 ans1]. destruct a1; simpl; intros [H|[]]; inversion H; reflexivity.
+  - destruct (next_answer answers) as [a1 ans1]. simpl. intros [H|[]]; inversion H; reflexivity.
+  - simpl. contradiction.
+Qed.
+
+Lemma handle_rows_calls h rows : forall answers c a,
+  In (c, a) (fst (handle_rows h rows answers)) ->
+  exists j, In j rows /\ prepare h j = inl (call_pk c).
+Proof.
+  induction rows as [|j r IH]; intros answers c a Hin; [simpl in Hin; contradiction|].
+  rewrite handle_rows_cons in Hin.
+  pose proof (handle_row_calls h j answers c a) as HR.
+  destruct (handle_row h j answers) as [[cs ans'] e]. simpl in HR.
+  assert (In (c, a) cs \/ exists j', In j' r /\ prepare h j' = inl (call_pk c)) as [H|(j' & H1 & H2)].
+  { destruct e; try (left; exact Hin).
+    specialize (IH ans' c a). destruct (handle_rows h r ans') as [cs2 e2]. simpl in *.
+    apply in_app_or in Hin. destruct Hin as [H|H]; [left; exact H|right; apply IH; exact H]. }
+  - exists j. split; [left; reflexivity|apply HR; exact H].
+  - exists j'. split; [right; exact H1|exact H2].
+Qed.
+
+Lemma prepare_join_stamp h es cs o j pk :
+  In j (join_row es cs o) -> prepare h j = inl pk -> In pk (stamp h es cs o).
+Proof.
+  unfold join_row, stamp.
+  destruct (find_eon es (or_eon o)) as [er|]; [|contradiction].
+  destruct (find_cfg cs (er_kci er)) as [cr|] eqn:E2; [|contradiction].
+  intros [<-|[]]. unfold prepare, safe_cast. simpl.
+  destruct (is_member (h_self h) (cr_keypers cr)); simpl; [|discriminate].
+  destruct (er_act er <? 0); [discriminate|].
+  destruct (cr_kci cr <? 0); [discriminate|].
+  destruct (or_eon o <? 0); [discriminate|].
+  intros H. inversion H. rewrite (find_cfg_key _ _ _ E2). left. reflexivity.
+Qed.
+
+Lemma nothing_else_gen h ops : forall d G c a,
+  incl (outgoing d) G -> ticks_enumerate d ops ->
+  In (c, a) (calls_of (snd (run h d ops))) ->
+  exists o, In o (G ++ generated ops) /\
+            In (call_pk c) (stamp h (eons (fst (run h d ops))) (cfgs (fst (run h d ops))) o).
+Proof.
+  induction ops as [|o r IH]; intros d G c a I T Hin; [simpl in Hin; contradiction|].
+  destruct T as [To Tr]. unfold run in *. rewrite run_gen_cons in *. simpl fst. simpl snd in Hin.
+  assert (generated (o :: r) = generated [o] ++ generated r) as ->.
+  { unfold generated. simpl. rewrite app_nil_r. reflexivity. }
+  rewrite app_assoc.
+  unfold calls_of in Hin. simpl in Hin. apply in_app_or in Hin. destruct Hin as [Hin|Hin].
+  - (* handed over by this operation: it is a tick *)
+    destruct o as [kci ks|e act kci|key e|enum answers|]; simpl in Hin;
+      try (destruct (insert_cfg d kci ks)); try (destruct (insert_eon d e act kci));
+      try (destruct (insert_outgoing d key e)); try contradiction.
+    pose proof (handle_rows_calls h (flat_map (join_row (eons d) (cfgs d)) enum) answers c a) as HC.
+    destruct (handle_rows h (flat_map (join_row (eons d) (cfgs d)) enum) answers) as [cs e].
+    simpl in Hin, HC. destruct (HC Hin) as (j & Hj & Pj).
+    apply in_flat_map in Hj. destruct Hj as (o & Ho & Hjo).
+    exists o. split.
+    + apply in_or_app. left. simpl. rewrite app_nil_r. apply I.
+      eapply Permutation_in; eassumption.
+    + apply stamp_in_ext with (d := d).
+      * eapply ext_trans; [apply (db_after_ext d (OpTick enum answers))|apply run_ext].
+      * eapply prepare_join_stamp; eassumption.
+  - (* handed over later *)
+    apply (IH (db_after d o) (G ++ generated [o]) c a); auto.
+    destruct o as [kci ks|e act kci|key e|enum answers|]; simpl.
+    + unfold insert_cfg. destruct (find_cfg (cfgs d) kci); simpl; rewrite app_nil_r; exact I.
+    + unfold insert_eon. destruct (find_eon (eons d) e); simpl; rewrite app_nil_r; exact I.
+    + unfold insert_outgoing. destruct (pending_eon (outgoing d) e); simpl.
+      * apply incl_appl. exact I.
+      * apply incl_app; [apply incl_appl; exact I|apply incl_appr; apply incl_refl].
+    + intros x [].
+    + rewrite app_nil_r. exact I.
+Qed.
+
+(* C20_nothing_else_is_handed *)
+Theorem nothing_else_is_handed : forall h ops c a,
+  ticks_enumerate empty_db ops ->
+  In (c, a) (calls_of (snd (run h empty_db ops))) ->
+  In (call_pk c) (expected h ops).
+Proof.
+  intros h ops c a T Hin.
+  destruct (nothing_else_gen h ops empty_db [] c a (incl_refl _) T Hin) as (o & Ho & Hs).
+  simpl in Ho.
+  destruct (tables_run handle_rows h ops empty_db empty_db eq_refl eq_refl) as [E1 E2].
+  unfold expected, tables_of, stamp_all. unfold run in Hs. rewrite E1, E2 in Hs.
+  apply in_flat_map. exists o. split; assumption.
+Qed.
